@@ -198,7 +198,7 @@ Step(e) ==
          \* aggregated over the stream, error energy at most M3Num/M3Den of the concealment error
          IF CheckM3 /\ acc.nf >= MinFecFrames /\ acc.sf > (acc.sp \div M3Den) * M3Num
          THEN Reject(<<"FEC is not far more accurate than concealment", acc.sf, acc.sp, acc.nf>>)
-         ELSE /\ PrintT(<<"OBS", cf.x, acc.nf, acc.sf, acc.sp, acc.o1, acc.n1, acc.o2, acc.n2, acc.o4, acc.n4, acc.o2b, acc.o2c>>)
+         ELSE /\ PrintT("OBS " \o ToString(<<cf.x, acc.nf, acc.sf, acc.sp, acc.o1, acc.n1, acc.o2, acc.n2, acc.o4, acc.n4, acc.o2b, acc.o2c>>))
               /\ cf' = NoCfg /\ w' = NoW /\ acc' = [NoAcc EXCEPT !.drift = acc.drift] /\ l' = l + 1
     [] OTHER -> Reject(<<"unexpected event", e.k>>)       \* Hang, Canary, bad
 
